@@ -50,6 +50,8 @@ E = [
     "x % 2.0",
     "x // 2.0",
     "y * 0.5 + x",
+    "((x - y) ** 2) ** 0.5",
+    "abs(x - y) + ((x - 1) ** 2) ** 0.25",
 ]
 C = [
     "x < 1",
